@@ -362,6 +362,11 @@ def c18_programs(rng, n):
     out.append(prog([("u1", [("tablesize",), ("remote_exec", "c", 1), ("setcallback", "c", True), ("drop", "c"), ("open_gate", "go"),
                              ("remote_exec", "e", 2), ("receive_all", "e"), ("drop", "e"), ("tablesize_settled",)])],
                     {1: [("send", "channel", 201), ("wait_gate", "go"), ("raise",)], 2: [("send", "channel", 221)]}))
+    # Channel.reconfigure() from another thread while a callback channel is being closed: no table entry survives the conversation
+    out.append(prog([("u1", [("tablesize",), ("remote_exec", "c", 1), ("setcallback", "c", True), ("open_gate", "cb"), ("waitclose", "c"), ("drop", "c"),
+                             ("wait_gate", "rdone"), ("tablesize_settled",)]),
+                     ("u2", [("wait_gate", "cb"), ("reconfigure", "c", False, True), ("reconfigure", "c", True, False), ("drop", "c"), ("open_gate", "rdone")])],
+                    {1: [("send", "channel", 201), ("wait_gate", "cb"), ("send", "channel", 202)]}))
     # remote_status() from one thread while others create channels: its temporary channel takes an id like any other
     out.append(prog([("u1", [("status",), ("status",)]), ("u2", [("remote_exec", "c", 1), ("receive_all", "c"), ("newchannel", "n1")]),
                      ("u3", [("newchannel", "n2"), ("remote_exec", "d", 2), ("receive_all", "d")])],
